@@ -228,6 +228,12 @@ func execute(c Case) *pt.Failure {
 		return pt.Failf("C14/fresh-request", "a fresh request after the schedule failed: %v %T", err, resp)
 	}
 	f1, m1 := sgetty.PendingFuturesForVerif()
+	// (the waiter of an unanswered one-way request gives up on the timer wheel's schedule, which may lag the
+	// callers' own timeouts by a moment: look again for a while before calling it a leak)
+	for i := 0; i < 300 && (f1 > f0 || m1 > m0); i++ {
+		time.Sleep(10 * time.Millisecond)
+		f1, m1 = sgetty.PendingFuturesForVerif()
+	}
 	if f1 > f0 || m1 > m0 {
 		what := "C14/bookkeeping-leak"
 		if anyDrop {
